@@ -16,6 +16,7 @@ import Fdo.Drv.Fsim
 import Fdo.Drv.Store
 import Fdo.Drv.Endpoint
 import Fdo.Drv.Rounds
+import Fdo.Drv.Pipeline
 /-
 Line-protocol driver: one operation per input line, one reply per output line.
 Imports model modules only (no proofs, no Mathlib) so that it links as a `lean_exe`.
@@ -42,6 +43,7 @@ def handlers : List (String × (String → List String → Option String)) := [
   ("store.", Drv.Store.handle),
   ("c10.", Drv.Endpoint.handle),
   ("rounds.", Drv.Rounds.handle),
+  ("pipe.", Drv.Pipeline.handle),
 ]
 
 def dispatch (line : String) : String :=
